@@ -51,6 +51,15 @@ def generate(rng, tier):
                "data": [rng.randint(1, 4) for _ in range(size)], "sig": [rng.randint(0, 3) for _ in range(size)],
                "nans": sorted(nans), "kind": rng.choice(["std", "std", "var", "var", "unknown", "absent"]),
                "ignores": rng.random() < 0.4, "spy": rng.random() < 0.12, "wseed": rng.randrange(10**6)}
+    # systematic: one bin holding the whole of a larger array, lightly masked - more than 16 contributing members,
+    # so that their number squared does not fit a narrow integer
+    for i in range(24 if tier == "quick" else 400):
+        shape = [[4, 6], [2, 6, 4], [6, 6], [4, 4, 2]][i % 4]
+        size = int(np.prod(shape))
+        yield {"shape": shape, "bins": list(shape), "op": ["mean", "nanmean", "sum", "nansum"][(i // 4) % 4], "mask": "random",
+               "bits": [rng.random() < 0.15 for _ in range(size)],
+               "data": [rng.randint(1, 4) for _ in range(size)], "sig": [rng.randint(0, 3) for _ in range(size)],
+               "nans": [], "kind": ["var", "std"][(i // 2) % 2], "ignores": False, "spy": False, "wseed": rng.randrange(10**6)}
 
 
 def build(case):
